@@ -180,7 +180,16 @@ def check_packet_error_class(ctx):
             else:
                 ctx.undecided(rule, init, stmt_text(n), 'initial stack is not a one-element list of a tuple', n.lineno)
     if shape0 is None:
-        ctx.undecided(rule, init, 'PacketError.__init__', 'no assignment of fields_stack found', init.node.lineno)
+        # no per-instance list: is the stack the class-level list, filled in place?
+        pe_cls = repo.cls('PacketError')
+        shared = [st_ for st_ in pe_cls.node.body if isinstance(st_, ast.Assign) and len(st_.targets) == 1 and canon(st_.targets[0]) == 'fields_stack'
+                  and isinstance(st_.value, (ast.List, ast.Call))]
+        grows = [c for c in ast.walk(addp.node) if isinstance(c, ast.Call) and isinstance(c.func, ast.Attribute) and c.func.attr in ('append', 'insert', 'extend')
+                 and isinstance(c.func.value, ast.Attribute) and c.func.value.attr == 'fields_stack']
+        if shared and grows:
+            ctx.violation(rule, init, 'class PacketError: %s; %s' % (stmt_text(shared[0]), stmt_text(grows[0])), 'the constructor never gives the error a list of its own: every PacketError of the process appends to the one class-level list, so a later failure carries the entries of all earlier ones (the first entry names the first failure ever)', shared[0].lineno, witness=True)
+        else:
+            ctx.undecided(rule, init, 'PacketError.__init__', 'no assignment of fields_stack found', init.node.lineno)
     for n in ast.walk(init.node):
         if isinstance(n, ast.Assign) and isinstance(n.targets[0], ast.Attribute) and n.targets[0].attr == 'was_error_found_in_unpacking_phase':
             params = [a.arg for a in init.node.args.args]
